@@ -362,8 +362,8 @@ Proof. apply (run_invariant c (Inv c)); [apply Inv_step | apply Inv_init]. Qed.
 Lemma GInv_run c msgs k sched s : run c (init msgs k) sched = Some s -> GInv msgs s.
 Proof. apply (run_invariant c (GInv msgs)); [apply GInv_step | apply GInv_init]. Qed.
 
-(* a complete run: no thread can move *)
-Definition terminal (c : cfg) (s : st) : Prop := forall a, step c s a = None.
+(* a complete run: no thread can move (closing the connection, which is always possible, is not a move) *)
+Definition terminal (c : cfg) (s : st) : Prop := forall a, a <> AClose -> step c s a = None.
 
 Lemma NoDup_app_l {A} (a b : list A) : NoDup (a ++ b) -> NoDup a.
 Proof.
@@ -386,7 +386,7 @@ Lemma terminal_pcs c s l lp :
   terminal c s -> nth_error (loops s) l = Some lp ->
   l_pc lp = PSelect \/ (exists m r ops, l_pc lp = PWait m r ops) \/ l_pc lp = PExit.
 Proof.
-  intros HT Hn. specialize (HT (ALoop l AltQueue)). cbn in HT. unfold step_loop in HT. rewrite Hn in HT.
+  intros HT Hn. specialize (HT (ALoop l AltQueue) ltac:(discriminate)). cbn in HT. unfold step_loop in HT. rewrite Hn in HT.
   destruct (l_pc lp) as [ |m|m|m ops|m r ops| | ] eqn:Epc; auto; try discriminate.
   - destruct ops as [|[|r] ops]; discriminate.
   - right. left. eauto.
@@ -412,10 +412,10 @@ Proof.
       destruct (rd_ok lc), (l_done lc); cbn in Ho; try discriminate; auto. }
   destruct Hsel as [Hsel Hdone].
   assert (Hq : queue s = []).
-  { pose proof (HT (ALoop (cur s) AltQueue)) as H. cbn in H. unfold step_loop in H. rewrite En, Hsel in H.
+  { pose proof (HT (ALoop (cur s) AltQueue) ltac:(discriminate)) as H. cbn in H. unfold step_loop in H. rewrite En, Hsel in H.
     destruct (queue s); auto; discriminate. }
   assert (Hp : prod s = []).
-  { pose proof (HT APush) as H. cbn in H. rewrite Hq in H. destruct (prod s); auto. cbn in H. discriminate. }
+  { pose proof (HT APush ltac:(discriminate)) as H. cbn in H. rewrite Hq in H. destruct (prod s); auto. cbn in H. discriminate. }
   repeat split; auto.
   - apply held_nil. intros lp Hin. apply In_nth_error in Hin as [l Hn].
     destruct (terminal_pcs _ _ _ _ HT Hn) as [E|[(m & r & ops & E)|E]]; unfold held_of; now rewrite E.
@@ -466,7 +466,7 @@ Proof.
   assert (Hd : delivered r s = true).
   { unfold delivered. apply existsb_exists. eapply Permutation_in in Hin; [|exact HP].
     apply in_map_iff in Hin as (e & E & Hin). exists e. split; auto. rewrite E. apply Z.eqb_refl. }
-  pose proof (HT (ALoop l AltQueue)) as H. cbn in H. unfold step_loop in H. rewrite Hn, Hpc, Hd in H. discriminate.
+  pose proof (HT (ALoop l AltQueue) ltac:(discriminate)) as H. cbn in H. unfold step_loop in H. rewrite Hn, Hpc, Hd in H. discriminate.
 Qed.
 
 (* ------------------------------------------------------------------ *)
@@ -811,4 +811,25 @@ Proof.
     apply orb_true_iff. left. apply negb_true_iff.
     destruct (mem r msgs) eqn:Em; auto. apply mem_In in Em.
     exfalso. eapply nested_returns; eauto.
+Qed.
+
+(* the executable test used by the harness and the examples decides [terminal] *)
+Lemma quiescent_terminal c s : quiescent c s = true -> terminal c s.
+Proof.
+  unfold quiescent. intros H a Ha.
+  destruct (step c s APush) eqn:E1; try discriminate.
+  destruct (step c s AExt) eqn:E2; try discriminate.
+  apply negb_true_iff in H.
+  destruct a as [| | |l a]; auto; try congruence.
+  cbn. destruct (Nat.lt_ge_cases l (length (loops s))) as [Hlt|Hge].
+  - assert (Hl : loop_enabled c s l = false).
+    { destruct (loop_enabled c s l) eqn:El; auto.
+      assert (existsb (loop_enabled c s) (seq 0 (length (loops s))) = true); [|congruence].
+      apply existsb_exists. exists l. split; auto. apply in_seq. lia. }
+    unfold loop_enabled in Hl.
+    destruct (step_loop c s l AltDone) eqn:A1; try discriminate.
+    destruct (step_loop c s l AltQueue) eqn:A2; try discriminate.
+    destruct (step_loop c s l AltConn) eqn:A3; try discriminate.
+    now destruct a.
+  - unfold step_loop. apply nth_error_None in Hge. now rewrite Hge.
 Qed.
